@@ -45,7 +45,8 @@ void LinMessage::write(AbstractFile & os) {
     os.write(reinterpret_cast<char *>(&crc), sizeof(crc));
     os.write(reinterpret_cast<char *>(&dir), sizeof(dir));
     os.write(reinterpret_cast<char *>(&reservedLinMessage1), sizeof(reservedLinMessage1));
-    os.write(reinterpret_cast<char *>(&reservedLinMessage2), sizeof(reservedLinMessage2));
+    if (reservedLinMessage2_present)
+        os.write(reinterpret_cast<char *>(&reservedLinMessage2), sizeof(reservedLinMessage2));
 }
 
 uint32_t LinMessage::calculateObjectSize() const {
